@@ -333,3 +333,78 @@ def rule_pack_ranges(rule, repo, eng, field_ranges, files=None, only_fields=None
                        'pack format %r for %s cannot carry the wire range [%d, %d] (%d-byte %s-endian): values the constructor accepts make struct.pack raise or change the bytes'
                        % (code, norm(v), rng[0], rng[1], width, 'little' if endian == '<' else 'big'))
     return n
+
+
+# --------------------------------------------------------------------------------------------- call-time chain parameters
+PARAM_GLOBALS = {('bitcoin', 'params'), ('bitcoin.core', 'coreparams')}
+
+
+def _is_param_read(repo, m, node, cls=None):
+    """is `node` a load of bitcoin.params / bitcoin.core.coreparams (through any alias)?"""
+    if isinstance(node, ast.Attribute) and node.attr in ('params', 'coreparams') and isinstance(node.ctx, ast.Load):
+        base = repo.fold(node.value, m, cls=cls)
+        from .model import ModuleRef
+        if isinstance(base, ModuleRef) and (base.info.name, node.attr) in PARAM_GLOBALS:
+            return True
+    if isinstance(node, ast.Name) and node.id in ('params', 'coreparams') and isinstance(node.ctx, ast.Load):
+        d = repo.defining_module(m, node.id)
+        if d is not None and (d[0].name, d[1]) in PARAM_GLOBALS:
+            return True
+    return False
+
+
+def rule_call_time_params(rule, repo, files=None):
+    """no read of the selected-chain globals in default arguments, decorators, class bodies or at module level,
+    and no `from bitcoin import params` (which freezes the import-time object)"""
+    n_body = 0
+    for m in repo.modules.values():
+        if files is not None and m.relpath not in files:
+            continue
+        # from-imports of the globals
+        for s in ast.walk(m.tree):
+            if isinstance(s, ast.ImportFrom):
+                base = repo._abs_module(m, s.module, s.level)
+                for a in s.names:
+                    if (base, a.name) in PARAM_GLOBALS:
+                        rule.violated('import:%s:%s' % (m.name, a.name), site_of(m, s),
+                                      '`from %s import %s` binds the chain parameters selected at import time: SelectParams() rebinds the module global, this name keeps the old object' % (base, a.name))
+        # which nodes are evaluated at import time?
+        def scan(node, in_func, where):
+            for child in ast.iter_child_nodes(node):
+                if isinstance(child, (ast.FunctionDef, ast.AsyncFunctionDef, ast.Lambda)):
+                    # defaults and decorators are evaluated at definition time
+                    args = child.args
+                    for d in list(args.defaults) + [x for x in args.kw_defaults if x is not None] + list(getattr(child, 'decorator_list', [])):
+                        for x in ast.walk(d):
+                            if _is_param_read(repo, m, x):
+                                if in_func:
+                                    continue
+                                name = getattr(child, 'name', '<lambda>')
+                                rule.violated('default:%s.%s:%s' % (m.name, name, norm(d)[:50]), site_of(m, d),
+                                              'default argument/decorator of %s reads the chain parameters once, at import (`%s`): it does not follow SelectParams()' % (name, norm(d)[:60]))
+                    body = child.body if isinstance(child.body, list) else [child.body]
+                    for b in body:
+                        scan_stmt(b, True, where)
+                elif isinstance(child, ast.ClassDef):
+                    for b in child.body:
+                        scan_stmt(b, in_func, 'class body of %s' % child.name)
+                else:
+                    scan_stmt(child, in_func, where)
+
+        def scan_stmt(node, in_func, where):
+            nonlocal n_body
+            if isinstance(node, (ast.FunctionDef, ast.AsyncFunctionDef, ast.ClassDef, ast.Lambda)):
+                holder = ast.Module(body=[node], type_ignores=[])
+                scan(holder, in_func, where)
+                return
+            if _is_param_read(repo, m, node):
+                if in_func:
+                    n_body += 1
+                else:
+                    rule.violated('import-time:%s:%s' % (m.name, norm(node)), site_of(m, node),
+                                  '%s reads the chain parameters at import time (%s): the value does not follow SelectParams()' % (where, norm(node)))
+            scan(node, in_func, where)
+        scan(m.tree, False, 'module level')
+    rule.ok('reads-in-function-bodies', '', '%d reads of the selected-chain globals, all evaluated at call time' % n_body)
+    rule.note('%d call-time reads' % n_body)
+    return n_body
